@@ -4615,7 +4615,11 @@ gboolean conn_check_handle_inbound_stun (NiceAgent *agent, NiceStream *stream,
         valid = stun_agent_validate (&d->stun_agent, &req,
             (uint8_t *) buf, len, conncheck_stun_validater, &validater_data);
 
-        if (valid == STUN_VALIDATION_UNMATCHED_RESPONSE)
+        /* Not the answer to this discovery: an unknown transaction, or a
+         * message of the other STUN flavour (the STUN server discovery
+         * speaks RFC 3489, the TURN one RFC 5389): try the next one. */
+        if (valid == STUN_VALIDATION_UNMATCHED_RESPONSE ||
+            valid == STUN_VALIDATION_BAD_REQUEST)
           continue;
 
         discovery_msg = TRUE;
